@@ -197,8 +197,8 @@ impl SlidingCounterState {
 
         if elapsed >= self.bucket_duration {
             // How many full buckets have passed?
-            let buckets_passed =
-                (elapsed.as_secs_f64() / self.bucket_duration.as_secs_f64()) as u32;
+            // Integer arithmetic: the float quotient of an exact multiple can round below it
+            let buckets_passed = elapsed.as_nanos() / self.bucket_duration.as_nanos().max(1);
 
             if buckets_passed >= 2 {
                 // More than one full bucket passed - previous is now empty
